@@ -106,7 +106,12 @@ func (mo *c18Mon) runScenario(idx int) {
 		c.Count("items_signer:"+it.Rel, 1)
 
 		k := sc.byID[it.KeyID]
-		nows := c18Boundaries(k)
+		var nows []c18Instant
+		kWhere, kWin, kCons := "none", "none", false
+		if k != nil {
+			nows = c18Boundaries(k)
+			kWhere, kWin, kCons = k.Where, k.WinClass, len(k.Cons) > 0
+		}
 		nows = append(nows, c18Instant{sc.T0.Add(time.Duration(rng.Intn(4000)-2000) * c18Day), "random"})
 		if it.HasTS {
 			nows = append(nows, c18Instant{it.TS, "at-timestamp"})
@@ -118,7 +123,7 @@ func (mo *c18Mon) runScenario(idx int) {
 				err := []error{errC, errA, errE}[mi]
 				c.Eval()
 				ref := c18Ref(sc, it, nw.T, mode == "check-earliest-time")
-				if mode == "check-earliest-time" && k.Until.Equal(k.Since) {
+				if mode == "check-earliest-time" && k != nil && k.Until.Equal(k.Since) {
 					// a key that is never valid: what "not yet expired" means for it is not
 					// fixed by the statement in this mode
 					c.Count("earliest_mode_empty_window_noclaim", 1)
@@ -130,7 +135,7 @@ func (mo *c18Mon) runScenario(idx int) {
 					refCls = "accept"
 				}
 				c.Count(mode+":reference:"+refCls, 1)
-				c.Nontrivial(kit.Sig(it.Type, it.Rel, k.Where, k.WinClass, len(k.Cons) > 0, it.TSClass, nw.Cls, mode, ref))
+				c.Nontrivial(kit.Sig(it.Type, it.Rel, kWhere, kWin, kCons, it.TSClass, nw.Cls, mode, ref))
 				switch {
 				case ref != "" && err == nil:
 					c.Violation("C18:accepted:"+ref, mo.witness(sc, it, map[string]interface{}{
